@@ -486,6 +486,10 @@ def c19_bad(tier, rnd):
            Text("k"), CLOSE, Text("post")], al, "later-pipe-alternative")
         al = Alloc(tier)
         P([Text("pre"), Open(cond=b), Text("k", bad(kbad + 1)), CLOSE, Text("post")], al, "two-plants")
+        # the same invalid text at two sites: an unreached one first, then a reached one (same location?)
+        al = Alloc(tier)
+        P([Text("pre\n"), Open(cond=al.call("cond", [B(False), B(True)])), Text("k", b), CLOSE, Text("\n  mid\n"),
+           Open(rep=(False, "x", al.call("repeat", [SEQ([]), SEQ([S("a")])]))), Text("r", b), CLOSE, Text("\n post ", b)], al, "same-text-twice")
     return progs
 
 
